@@ -196,7 +196,9 @@ Theorem super_init_ok : forall bs mtime comp s,
 Proof. exact super_init_ok_l. Qed.
 Print Assumptions super_init_ok.
 
-(* sqfs_super_write: 96 bytes, every field little endian at its struct offset *)
+(* sqfs_super_write: 96 bytes; the 13 fields listed below little endian at their struct offsets (mtime, fragment count,
+   compressor id, flags and the two version fields are not restated here: the whole-struct round trip is
+   image_super_roundtrip further down) *)
 Theorem super_write_ok : forall s,
   super_fields_ok s ->
   lenN (super_write s) = sizeof_sqfs_super_t /\
@@ -228,8 +230,10 @@ Print Assumptions padding_ok.
 
 (* alloc_inode_num_dfs + root: the numbers, in the order they are handed out, are exactly 1, 2, .., N
    (N = number of nodes that are not hard link entries, root included, root last), and every node gets
-   a number greater than those of all its descendants -- so that writing inodes in number order has the
-   reference of every child at hand when its directory is written *)
+   a number greater than those of all its descendants.  (This model has no hard link entries being re-ordered:
+   reorder_hard_links is NOT part of C03/NumModel.  The statement that serialization really has the reference of
+   every child and link target at hand - with reorder_hard_links - is post_tree_structure / post_tree_representable
+   in Properties_C01.v section 5, over the lib/fstree model of coq/C11 + coq/ImgPost.) *)
 Theorem inode_numbers_dense : forall t,
   let nums := numbering t in
   map snd nums = map N.of_nat (seq 1 (count_nodes t)) /\
